@@ -291,7 +291,7 @@ def operator_sequences(mv):
     be tracked by the generator's context), used as templates of their own"""
     if mv not in _OPSEQS:
         pl = gpool.pool_for(mv)
-        seqs = sorted(s for s, i in pl.seqinfo.items() if i.has_operator and 1 <= i.n_expanded <= 150)
+        seqs = sorted(s for s, i in pl.seqinfo.items() if getattr(i, 'has_operator', False) and 1 <= getattr(i, 'n_expanded', 0) <= 150)
         # those whose operators leave something in force at the end of the subset: an operator opened and not cancelled
         # (303021 ends inside 204007), or bitmap / back-reference operators (322001)
         leaves = []
